@@ -202,17 +202,17 @@ theorem C14_primitive_recOrder (g : GSpec) : ClosedAligned g (recOrder g) := by
 /-- every permutation recombinator (any `permutate` method that only reads the oracle): parents or
 children that went through `from_dict`. Instances: Order, PartiallyMapped, Cycle. -/
 theorem C14_primitive_recPerm (permute : List Nat → List Nat → M (List Nat × List Nat))
-    (hp : ∀ vx vy, OO (permute vx vy)) (g : GSpec) : ClosedAligned g (recPerm permute g) := by
+    (hp : ∀ vx vy, OO (permute vx vy)) (k : Nat) (g : GSpec) : ClosedAligned g (recPerm permute k g) := by
   intro pop st out st' hpop h
-  rcases recPerm_spec permute hp g pop st out st' h with ⟨rfl, _⟩ | ⟨_, hall⟩
+  rcases recPerm_spec permute hp k g pop st out st' h with ⟨rfl, _⟩ | ⟨_, hall⟩
   · exact hpop
   · exact fun y hy => ⟨(hall y hy).1, (hall y hy).2.1⟩
 
 theorem C14_primitive_recPMX (g : GSpec) : ClosedAligned g (recPMX g) :=
-  C14_primitive_recPerm permutePMX OO_permutePMX g
+  C14_primitive_recPerm permutePMX OO_permutePMX 1 g
 
 theorem C14_primitive_recCycle (g : GSpec) : ClosedAligned g (recCycle g) :=
-  C14_primitive_recPerm permuteCycle OO_permuteCycle g
+  C14_primitive_recPerm permuteCycle OO_permuteCycle 1 g
 
 /-- Order crossover proper: for two arrangements of the same distinct items and any cut points
 `start ≤ stop ≤ size` (any random draw), both children are arrangements of those items — `from_dict`
@@ -408,15 +408,15 @@ theorem C14_pure_recSegmented (g : GSpec) (cuts : List Nat) : Pure g (recSegment
 
 theorem C14_pure_recOrder (g : GSpec) : Pure g (recOrder g) := by
   intro pop st out st' hv hr
-  rcases recOrder_spec g pop st out st' hr with ⟨rfl, rfl⟩ | ⟨hle, hall⟩
-  · exact ⟨Nat.le_refl _, fun y hy => ⟨hv y hy, Or.inl hy⟩⟩
+  rcases recOrder_spec g pop st out st' hr with ⟨rfl, he⟩ | ⟨hle, hall⟩
+  · exact ⟨by omega, fun y hy => ⟨hv y hy, Or.inl hy⟩⟩
   · exact ⟨hle, fun y hy => ⟨(hall y hy).1, Or.inr (hall y hy).2.2⟩⟩
 
 theorem C14_pure_recPerm (permute : List Nat → List Nat → M (List Nat × List Nat))
-    (hp : ∀ vx vy, OO (permute vx vy)) (g : GSpec) : Pure g (recPerm permute g) := by
+    (hp : ∀ vx vy, OO (permute vx vy)) (k : Nat) (g : GSpec) : Pure g (recPerm permute k g) := by
   intro pop st out st' hv hr
-  rcases recPerm_spec permute hp g pop st out st' hr with ⟨rfl, rfl⟩ | ⟨hle, hall⟩
-  · exact ⟨Nat.le_refl _, fun y hy => ⟨hv y hy, Or.inl hy⟩⟩
+  rcases recPerm_spec permute hp k g pop st out st' hr with ⟨rfl, he⟩ | ⟨hle, hall⟩
+  · exact ⟨by omega, fun y hy => ⟨hv y hy, Or.inl hy⟩⟩
   · exact ⟨hle, fun y hy => ⟨(hall y hy).1, Or.inr (hall y hy).2.2⟩⟩
 
 /-! ### Mutators with a `where` filter: the guarantees hold for every filter -/
